@@ -11,6 +11,7 @@ import (
 	"encoding/hex"
 	"fmt"
 	"math/rand"
+	"regexp"
 	"sort"
 	"strings"
 )
@@ -67,52 +68,100 @@ func (b *pdfb) streamIndLen(dict string, data []byte) int {
 	return b.add(fmt.Sprintf("<< %s /Length %d 0 R >>\nstream\n%s\nendstream", dict, l, data))
 }
 
-func (b *pdfb) bytes(root, info int, free []int) []byte {
+var refRe = regexp.MustCompile(`\b(\d+) 0 R\b`)
+
+// renumberBody rewrites the references of an object body (only the part before its stream data)
+func renumberBody(body string, renum map[int]int) string {
+	if len(renum) == 0 {
+		return body
+	}
+	head, tail := body, ""
+	if i := strings.Index(body, "\nstream\n"); i >= 0 {
+		head, tail = body[:i], body[i:]
+	}
+	head = refRe.ReplaceAllStringFunc(head, func(m string) string {
+		var n int
+		fmt.Sscanf(m, "%d", &n)
+		if k, ok := renum[n]; ok {
+			return fmt.Sprintf("%d 0 R", k)
+		}
+		return m
+	})
+	return head + tail
+}
+
+// bytes serialises the document with a classic xref table. renum (optional) gives some object
+// numbers (in use or free) other, possibly very large numbers: the xref table then has one
+// subsection per run of consecutive numbers; numbers in no subsection are simply missing.
+func (b *pdfb) bytes(root, info int, renum map[int]int) []byte {
+	mp := func(n int) int {
+		if k, ok := renum[n]; ok {
+			return k
+		}
+		return n
+	}
 	var w bytes.Buffer
 	fmt.Fprintf(&w, "%%PDF-%s\n%%\xe2\xe3\xcf\xd3\n", b.ver)
-	max := b.next - 1
 	offs := map[int]int{}
+	var fl []int // free objects (new numbers)
+	for n := 1; n < b.next; n++ {
+		if _, ok := b.objs[n]; !ok {
+			fl = append(fl, mp(n))
+		}
+	}
+	sort.Ints(fl)
 	nrs := make([]int, 0, len(b.objs))
+	body := map[int]string{}
 	for n := range b.objs {
-		nrs = append(nrs, n)
+		nrs = append(nrs, mp(n))
+		body[mp(n)] = renumberBody(b.objs[n], renum)
 	}
 	sort.Ints(nrs)
+	max := 0
 	for _, n := range nrs {
 		offs[n] = w.Len()
-		fmt.Fprintf(&w, "%d 0 obj\n%s\nendobj\n", n, b.objs[n])
+		fmt.Fprintf(&w, "%d 0 obj\n%s\nendobj\n", n, body[n])
+		if n > max {
+			max = n
+		}
+	}
+	for _, n := range fl {
+		if n > max {
+			max = n
+		}
 	}
 	x := w.Len()
-	fmt.Fprintf(&w, "xref\n0 %d\n", max+1)
-	// free list: 0 -> free objects ascending -> 0
-	var fl []int
-	for n := 1; n <= max; n++ {
-		if _, ok := offs[n]; !ok {
-			fl = append(fl, n)
+	// entries: 0, the objects in use, the free objects; free list: 0 -> free ascending -> 0
+	nextFree := map[int]int{}
+	prev := 0
+	for _, n := range fl {
+		nextFree[prev] = n
+		prev = n
+	}
+	nextFree[prev] = 0
+	all := append(append([]int{0}, nrs...), fl...)
+	sort.Ints(all)
+	w.WriteString("xref\n")
+	for i := 0; i < len(all); {
+		j := i
+		for j+1 < len(all) && all[j+1] == all[j]+1 {
+			j++
 		}
-	}
-	nextFree := func(i int) int {
-		if i+1 < len(fl) {
-			return fl[i+1]
+		fmt.Fprintf(&w, "%d %d\n", all[i], j-i+1)
+		for _, n := range all[i : j+1] {
+			if o, ok := offs[n]; ok {
+				fmt.Fprintf(&w, "%010d 00000 n \n", o)
+			} else if n == 0 {
+				fmt.Fprintf(&w, "%010d 65535 f \n", nextFree[0])
+			} else {
+				fmt.Fprintf(&w, "%010d 00001 f \n", nextFree[n])
+			}
 		}
-		return 0
+		i = j + 1
 	}
-	first := 0
-	if len(fl) > 0 {
-		first = fl[0]
-	}
-	fmt.Fprintf(&w, "%010d 65535 f \n", first)
-	fi := 0
-	for n := 1; n <= max; n++ {
-		if o, ok := offs[n]; ok {
-			fmt.Fprintf(&w, "%010d 00000 n \n", o)
-		} else {
-			fmt.Fprintf(&w, "%010d 00001 f \n", nextFree(fi))
-			fi++
-		}
-	}
-	tr := fmt.Sprintf("/Size %d /Root %d 0 R", max+1, root)
+	tr := fmt.Sprintf("/Size %d /Root %d 0 R", max+1, mp(root))
 	if info > 0 {
-		tr += fmt.Sprintf(" /Info %d 0 R", info)
+		tr += fmt.Sprintf(" /Info %d 0 R", mp(info))
 	}
 	fmt.Fprintf(&w, "trailer\n<< %s >>\nstartxref\n%d\n%%%%EOF\n", tr, x)
 	return w.Bytes()
@@ -192,6 +241,10 @@ type genOpts struct {
 	// 5: PieceInfo private data -> head; 6: resource entry -> second free object
 	dangling int
 	noInfo   bool // no /Info in the trailer (the writer then creates an info dict)
+	// sparse != "": some objects get very large numbers (sparse numbering): the kind says which
+	// (catalog, pages, page, font, content, info, free, several), sparseNr the new number(s)
+	sparse   string
+	sparseNr []int
 }
 
 func randValue(r *rand.Rand, b *pdfb, depth int) string {
@@ -460,6 +513,13 @@ func genDoc(r *rand.Rand, opt genOpts) ([]byte, *docInfo) {
 	emit(rootNode)
 
 	// pages
+	firstContent := 0
+	keep := func(cur, n int) int {
+		if cur == 0 {
+			return n
+		}
+		return cur
+	}
 	for i, n := range pageNodes {
 		s := fmt.Sprintf("<< /Type /Page /Parent %d 0 R", n.parent.nr)
 		// effective MediaBox must exist: if none is inherited for sure, put one on the page
@@ -488,16 +548,21 @@ func genDoc(r *rand.Rand, opt genOpts) ([]byte, *docInfo) {
 			}
 			c1 := b.stream(r, "", []byte(lead), r.Intn(4))
 			c2 := b.stream(r, "", text, r.Intn(4))
+			firstContent = keep(firstContent, c2)
 			c3 := b.stream(r, "", []byte(" Q"), r.Intn(4))
 			s += fmt.Sprintf(" /Contents [%d 0 R %d 0 R %d 0 R]", c1, c2, c3)
 			di.note("contents-array")
 		case 1:
 			di.note("no-contents")
 		case 2:
-			s += fmt.Sprintf(" /Contents %d 0 R", b.streamIndLen("", text))
+			cN := b.streamIndLen("", text)
+			firstContent = keep(firstContent, cN)
+			s += fmt.Sprintf(" /Contents %d 0 R", cN)
 			di.note("indirect-length")
 		default:
-			s += fmt.Sprintf(" /Contents %d 0 R", b.stream(r, "", text, r.Intn(4)))
+			cN := b.stream(r, "", text, r.Intn(4))
+			firstContent = keep(firstContent, cN)
+			s += fmt.Sprintf(" /Contents %d 0 R", cN)
 		}
 		// annotations
 		dangAnnots := i == 0 && (opt.dangling == 1 || opt.dangling == 2 || opt.dangling == 4)
@@ -713,5 +778,34 @@ func genDoc(r *rand.Rand, opt genOpts) ([]byte, *docInfo) {
 		b.add(randValue(r, b, 1))
 		di.note("unreferenced")
 	}
-	return b.bytes(catalog, info, nil), di
+	var renum map[int]int
+	if opt.sparse != "" {
+		renum = map[int]int{}
+		nr := func(i int) int { return opt.sparseNr[i%len(opt.sparseNr)] }
+		firstFree := 0
+		for n := 1; n < b.next; n++ {
+			if _, ok := b.objs[n]; !ok {
+				firstFree = n
+				break
+			}
+		}
+		if firstFree == 0 {
+			firstFree = b.alloc() // a free entry to renumber
+		}
+		cands := map[string]int{"catalog": catalog, "pages": pagesRoot, "page": pageNodes[len(pageNodes)/2].nr,
+			"font": fonts[0], "content": firstContent, "info": info, "free": firstFree}
+		if opt.sparse == "several" {
+			i := 0
+			for _, k := range []string{"catalog", "page", "font", "free", "info", "content"} {
+				if cands[k] > 0 {
+					renum[cands[k]] = nr(i) + i // distinct
+					i++
+				}
+			}
+		} else if cands[opt.sparse] > 0 {
+			renum[cands[opt.sparse]] = nr(0)
+		}
+		di.note(fmt.Sprintf("sparse:%s:%v", opt.sparse, renum))
+	}
+	return b.bytes(catalog, info, renum), di
 }
